@@ -28,12 +28,18 @@ def obj_replay(c, rt, jsonl, nslots, parts, label):
                     for i, l in enumerate(f):
                         if i == idx[-1]:
                             beh = json.loads(l)
-            # memory-unsafety symptoms (a crash) belong to the lifecycle property
-            if c.prop == "C06":
-                c.violation("the real code crashed the replay child (rc=%s) %s on behaviour %s" % (rc, label, json.dumps(beh)[:500]),
+            # memory-unsafety symptoms (a crash) belong to the lifecycle property; a crash inside an operation that only CALLS
+            # through an object (plain call, call through as_ref!/as_mut!, through a borrowed or lent child) also means the call
+            # did not reach the method on the instance (C01), inside a cast operation that the cast misbehaved (C08)
+            ops = [l.split()[1] for l in pr.stderr.splitlines() if l.startswith("OP ")]
+            last_op = ops[-1] if ops else ""
+            mine = (c.prop == "C06" or (c.prop == "C01" and last_op in ("Call", "CastBorrow", "KidBorrowed", "KidView"))
+                    or (c.prop == "C08" and last_op in ("CastBorrow", "CastMove", "Upcast")))
+            if mine:
+                c.violation("the real code crashed the replay child (rc=%s) during %s %s on behaviour %s" % (rc, last_op or "?", label, json.dumps(beh)[:500]),
                             {"beh": beh, "adapter": ["obj", "replay", "--slots", str(nslots), "--ctx", "1"]})
             else:
-                c.cov.setdefault("other_property_divergences", []).append("child crashed (attributed to C06)")
+                c.cov.setdefault("other_property_divergences", []).append("child crashed during %s (attributed to C06)" % (last_op or "?"))
             continue
         tb += summ["behaviours"]
         ts += summ["steps"]
@@ -137,6 +143,20 @@ def run(c, tier):
                 break
             g.write(l)
     nev = obj_traces(c, rt, sl, 3)
+    if c.prop in ("C01", "C06", "C07"):
+        # Clone through objects AND groups (base, cast!-ed): a cast has to come first, which random behaviours rarely do.
+        # Every behaviour of depth 5 over {NewOwned, CastMove, Upcast, Clone, Drop}; those that clone are replayed.
+        j4, n4all = lib.gen_step(c, "Gen_CGlueObj", "Gen_CGlueObj_clone.cfg", "gen_obj_clone")
+        j4f = j4 + ".clones"
+        n4 = 0
+        with open(j4) as f, open(j4f, "w") as g:
+            for l in f:
+                if '"op":"Clone"' in l:
+                    g.write(l)
+                    n4 += 1
+        os.remove(j4)
+        b4, s4, k4 = obj_replay(c, rt, j4f, 2, 4, "(clone after cast scenarios)")
+        b2 += b4; s2 += s4; n2 += n4
     if c.prop == "C07":
         # by-value calls on objects holding the last context reference, observed through an interposed
         # vtable slot: the context's destructor event must come after the callee has returned
